@@ -57,6 +57,7 @@ func cmdFuncs(args []string) {
 		fmt.Fprintln(os.Stderr, "ENGINE-ERROR", err)
 		os.Exit(2)
 	}
+	eng.findings = loadFindings(filepath.Join(verifRoot(), "known_findings.jsonl"))
 	names := fs.Args()
 	if len(names) == 0 {
 		for _, n := range eng.cf.Order {
